@@ -241,16 +241,24 @@ func q1(w *World, r *Report, reach *Reach, scope []*ssa.Function) {
 	is := needFn(r, "Q-1", w, fref{"ctrlers/vm/evm", "EVMCtrler", "ImmutableStateAt"})
 	if is != nil {
 		var hStore, sStore bool
-		for _, fs := range w.fieldStores(is) {
-			if !baseFresh(fs.Addr) {
-				continue
-			}
-			switch fs.Field.Name() {
-			case "acctHandler":
-				hStore = w.Canon(fs.Val) == "recv.acctHandler.ImmutableAcctCtrlerAt(p0)#0"
-			case "StateDB":
-				c := w.Canon(fs.Val)
-				sStore = strings.HasPrefix(c, "state.New(") && strings.Contains(c, "recv.metadb.Get(evm.blockKey(p0))#0")
+		// the wrapper may be built by a constructor helper from values ImmutableStateAt
+		// (or a loading helper) hands it: the values are followed to where they come from
+		for _, g := range w.withModuleCallees(is, 2) {
+			for _, fs := range w.fieldStores(g) {
+				if !baseFresh(fs.Addr) || !namedIs(fs.Owner, absPkg("ctrlers/vm/evm"), "StateDBWrapper") {
+					continue
+				}
+				if g != is && len(w.nodeCallers(g)) != 1 {
+					continue // a shared constructor: decided where it is the only one
+				}
+				for _, c := range w.mayCanonsBelow(is, fs.Val, 4) {
+					switch fs.Field.Name() {
+					case "acctHandler":
+						hStore = hStore || c == "recv.acctHandler.ImmutableAcctCtrlerAt(p0)#0"
+					case "StateDB":
+						sStore = sStore || strings.HasPrefix(c, "state.New(") && strings.Contains(c, "recv.metadb.Get(evm.blockKey(p0))#0")
+					}
+				}
 			}
 		}
 		r.Check(hStore, "Q-1", "ImmutableStateAt:immutable-account-handler", "the scratch wrapper's account handler is ImmutableAcctCtrlerAt(height)", "the wrapper returned by ImmutableStateAt does not use the immutable account handler of that height (a read-only call would write the live account ledger)", fnSite(w, is))
@@ -618,7 +626,7 @@ func q3(w *World, r *Report) {
 						continue
 					}
 					bo, ok := in.(*ssa.BinOp)
-					if !ok || bo.Op != token.EQL {
+					if !ok || (bo.Op != token.EQL && bo.Op != token.NEQ) {
 						continue
 					}
 					var cst *ssa.Const
@@ -628,7 +636,30 @@ func q3(w *World, r *Report) {
 					} else if c, ok := bo.X.(*ssa.Const); ok {
 						cst, other = c, bo.Y
 					}
-					if cst == nil || cst.Value == nil || cst.Value.Kind() != constant.String {
+					if cst == nil {
+						// compared with an element of a local literal list: every string in it
+						for _, pair := range [][2]ssa.Value{{bo.X, bo.Y}, {bo.Y, bo.X}} {
+							oc := w.Canon(pair[0])
+							if !(oc == reqCanon+".Path" || (d > 0 && strings.HasSuffix(oc, ".Path"))) {
+								continue
+							}
+							if ld, isL := stripConv(pair[1]).(*ssa.UnOp); isL && ld.Op == token.MUL {
+								if ia, isI := ld.X.(*ssa.IndexAddr); isI {
+									if base, isA := localArrayBase(ia.X).(*ssa.Alloc); isA {
+										if elems, ok := varargElems(base); ok {
+											for _, e := range elems {
+												if k, isK := stripConv(e).(*ssa.Const); isK && k.Value != nil && k.Value.Kind() == constant.String {
+													out[constant.StringVal(k.Value)] = true
+												}
+											}
+										}
+									}
+								}
+							}
+						}
+						continue
+					}
+					if cst.Value == nil || cst.Value.Kind() != constant.String {
 						continue
 					}
 					if oc := w.Canon(other); oc == reqCanon+".Path" || (d > 0 && strings.HasSuffix(oc, ".Path")) {
@@ -690,6 +721,14 @@ func q3(w *World, r *Report) {
 					cst, other = k, bo.X
 				} else if k, ok := bo.X.(*ssa.Const); ok {
 					cst, other = k, bo.Y
+				} else if w.cur != nil && w.cur.st != nil {
+					// an element of a literal list of paths walked by a loop: the
+					// path being enumerated says which element it is
+					if k, ok := stripConv(w.resolveValue(bo.Y, w.cur.st, w.cur.eval, 3)).(*ssa.Const); ok && w.Canon(bo.X) == "p0.Path" {
+						cst, other = k, bo.X
+					} else if k, ok := stripConv(w.resolveValue(bo.X, w.cur.st, w.cur.eval, 3)).(*ssa.Const); ok && w.Canon(bo.Y) == "p0.Path" {
+						cst, other = k, bo.Y
+					}
 				}
 				if cst == nil || cst.Value == nil || cst.Value.Kind() != constant.String || w.Canon(other) != "p0.Path" {
 					return false, false
